@@ -18,7 +18,7 @@ void drv_c11(int tier, unsigned long seed, const char *extra) {
   shard_t sh = shard_parse(extra); long x = 0; int bi, d, s, j;
   for (bi = 0; bi < 17; bi++) for (d = -1; d <= 2; d++) {
     x++; if (!MINE(sh, x)) continue;
-    if (sh.pure && x % 4) continue;
+    if (sh.pure && (x % 9 || bi > 8)) continue;
     rec_reset("c11", x, seed);
     for (j = 0; j < 3; j++) callf("mpz_init", j); callf("mpq_init", 0); callf("mpq_init", 1); callf("mpf_init2", 0, (uint64_t)(64 + 64 * rnd_below(4))); callf("mpf_init2", 1, (uint64_t)256);
     for (s = 0; s < 2; s++) {
@@ -35,6 +35,7 @@ void drv_c11(int tier, unsigned long seed, const char *extra) {
         callf("mpz_set_si", 1, si); callf("mpz_cmp", 0, 1); callf("mpz_cmp_si", 0, si); callf("mpz_cmp_si", 0, -si); callf("mpz_cmp_si", 0, si + 1);
         callf("mpz_set_ux", 1, u); callf("mpz_set_sx", 1, si); callf("mpz_clear", 2); callf("mpz_init_set_ui", 2, u); callf("mpz_clear", 2); callf("mpz_init_set_si", 2, si); }
       for (j = 0; j < NDBL + 4; j++) { double dv = dbl_of(j);
+        if (sh.pure && (j % 5 || fabs(dv) > 1e40 || (dv != 0 && fabs(dv) < 1e-40))) continue;       /* pure TLA+ arithmetic: moderate exponents only */
         callf("mpz_cmp_d", 0, dv); callf("mpz_cmpabs_d", 0, dv);
         if (isfinite(dv)) { callf("mpz_set_d", 1, dv); callf("mpz_cmp", 0, 1); callf("mpz_clear", 2); callf("mpz_init_set_d", 2, dv);
           callf("mpq_set_d", 0, dv); callf("mpq_get_d", 0); callf("mpf_set_d", 0, dv); callf("mpf_get_d", 0); callf("mpf_cmp_d", 1, dv); } }
